@@ -123,6 +123,12 @@ U3 = universe("U3", 4, [
     ("(k (v 1) 2 (f 2 1))", "(k (v 1) 2 (f 1 2))"),
     ("(k (v 1) 2 (v 2))", "(k c 2 (v 2))"),
     ("(v 1)", "c"),
+    # a free child BEFORE a binder of the same name (layout of Sdql::Sum), and after it
+    ("(k (v 1) 1 (f 1 2))", "(v 2)"),
+    ("(k (v 1) 1 (v 1))", "(v 1)"),
+    ("(sum (v 1) 1 2 (f 1 2))", "(v 1)"),
+    ("(let 1 (v 1) (v 1))", "(v 1)"),
+    ("(k (v 1) 1 (f 1 2))", "(k (v 1) 3 (f 3 2))"),   # alpha-equal
 ], note="binder heavy: let, nested lam, sum (Bind Bind), k (child before binder)")
 
 ALL = {"U1": U1, "U2": U2, "U3": U3}
